@@ -393,6 +393,16 @@ func findPartStore(s interface{}) partstore.PartStore {
 
 	// Check if any field is a PartStore
 	partStoreType := reflect.TypeOf((*partstore.PartStore)(nil)).Elem()
+	namedPartStoresType := reflect.TypeOf((*partstore.NamedPartStores)(nil))
+
+	for i := 0; i < val.NumField(); i++ {
+		field := val.Field(i)
+		if field.Type() == namedPartStoresType && !field.IsNil() {
+			// MetadataPartStorage keeps its part stores behind *NamedPartStores
+			named := reflect.NewAt(field.Type(), unsafe.Pointer(field.UnsafeAddr())).Elem().Interface().(*partstore.NamedPartStores)
+			return named.Default()
+		}
+	}
 
 	for i := 0; i < val.NumField(); i++ {
 		field := val.Field(i)
